@@ -69,9 +69,15 @@ def args_text(call, site, first=None, cx=False):
     return ", ".join(parts)
 
 
-def binding_obj(b, sig, site):
-    """spec binding record -> the object a site prints: sorted (name, value) pairs of locals()"""
+IDENT0 = 70       # the instance at the end of a receiver chain of rc components has ident 70 + rc
+
+
+def binding_obj(b, sig, site, kind=None):
+    """spec binding record -> the object a site prints: sorted (name, value) pairs of locals();
+    for a bound method call also the identity of the object `self` is bound to"""
     items = [(n, val(site, v)) for n, v in b["par"]]
+    if kind == "method":
+        items.append(("self", IDENT0 + b["rc"]))
     if sig["va"]:
         items.append(("args", tuple(val(site, v) for v in b["va"])))
     if sig["kw"]:
@@ -81,9 +87,24 @@ def binding_obj(b, sig, site):
 
 SHOW = (
     "def _show(d, g):\n"
-    "    print(sorted((k, sorted(v.items()) if isinstance(v, dict) else v)\n"
-    "                 for k, v in d.items() if k not in ('self', 'cls')), g)\n"
+    "    items = []\n"
+    "    for k, v in d.items():\n"
+    "        if k == 'self':\n"
+    "            if hasattr(v, 'ident'):\n"
+    "                items.append((k, v.ident))\n"
+    "        elif k != 'cls':\n"
+    "            items.append((k, sorted(v.items()) if isinstance(v, dict) else v))\n"
+    "    print(sorted(items), g)\n"
 )
+
+# receivers of bound calls: attribute chains of 1, 2, 3 components, each ending in its own instance of C
+WRAPPERS = (
+    "class W2:\n    def __init__(self):\n        self.o = C()\n\n\n"
+    "class W3:\n    def __init__(self):\n        self.w = W2()\n\n\n"
+)
+RECEIVERS = {1: "obj", 2: "w2.o", 3: "w3.w.o"}
+INSTANCES = ("obj = C()\nobj.ident = %d\nw2 = W2()\nw2.o.ident = %d\nw3 = W3()\nw3.w.o.ident = %d\n"
+             % (IDENT0 + 1, IDENT0 + 2, IDENT0 + 3))
 
 
 def def_block(sig, kind, body):
@@ -107,14 +128,15 @@ def call_text(kind, call, site, style):
     if kind == "constructor":
         target = "C" if (mod == 1 or variant == 0) else "m.C"
         return "%s(%s)" % (target, args_text(call, site))
+    recv = RECEIVERS[call.get("rc", 1)]
     if kind == "method":
         if variant == 0:
-            return "obj.f(%s)" % args_text(call, site)
-        return "C.f(%s)" % args_text(call, site, first="obj")
+            return "%s.f(%s)" % (recv, args_text(call, site))
+        return "C.f(%s)" % args_text(call, site, first=recv)
     # classmethod / staticmethod: through the class or through an instance
     if variant == 0:
         return "C.f(%s)" % args_text(call, site)
-    return "obj.f(%s)" % args_text(call, site)
+    return "%s.f(%s)" % (recv, args_text(call, site))
 
 
 def render_sig_program(kind, sig, calls):
@@ -124,7 +146,7 @@ def render_sig_program(kind, sig, calls):
     split = (n + 1) // 2
     m = "G = %d\n\n\n%s\n\n%s\n\n" % (INTRO_VALUE, SHOW, def_block(sig, kind, ["_show(locals(), G)"]))
     if kind != "function" and kind != "constructor":
-        m += "obj = C()\n"
+        m += WRAPPERS + INSTANCES
     info = []
     for k in range(split):
         m += "%s  # s%d\n" % (call_text(kind, calls[k], k, (1, k % 2)), k)
@@ -133,9 +155,10 @@ def render_sig_program(kind, sig, calls):
     if kind == "function":
         nsrc += "from m import f\n"
     else:
-        nsrc += "from m import C\n"
         if kind != "constructor":
-            nsrc += "obj = C()\n"
+            nsrc += "from m import C, W2, W3\n" + INSTANCES
+        else:
+            nsrc += "from m import C\n"
     for k in range(split, n):
         nsrc += "%s  # s%d\n" % (call_text(kind, calls[k], k, (2, k % 2)), k)
         info.append(("n.py", "# s%d" % k))
